@@ -154,6 +154,18 @@ def check(run: common.Run):
             jid = len(jobs)
             jobs.append((jid, s, dict(sw.OPTION_COMBOS[i % 8]), iters))
             meta[jid] = "first_statement"
+    # round 5: backslash continuations onto blank lines (a line break kept / re-inserted on every application would
+    # grow the text), comparison pairs with heterogeneous constants, type confusion (a rule that rewrites `x == 1 or
+    # x == True` back and forth)
+    r5 = [("continuations", [s_ for _, s_ in dh.continuation_family()], 4),
+          ("hetero_bounds", [s_ for _, s_ in dh.hetero_bound_family("quick") if s_ in dh.HETERO_CORE], 8),
+          ("type_confusion", dh.type_confusion_family(), 6)]
+    for name, srcs, stride in r5:
+        srcs = [s_ for s_ in srcs if sw.valid(s_)]
+        for i, s in enumerate(srcs[:: (stride if run.tier == "quick" else 1)]):
+            jid = len(jobs)
+            jobs.append((jid, s, dict(sw.OPTION_COMBOS[(i % 4) * 2]), iters))
+            meta[jid] = name
     for tag, s in dh.budget_family(big=run.tier == "thorough"):
         jid = len(jobs)
         jobs.append((jid, s, dict(sw.OPTION_COMBOS[0]), iters))
